@@ -31,6 +31,10 @@ CHECKS = {
                 text="The independent decoder is the TLA+ module BinaryWire (docs/binary.md transcribed; its worked examples are ASSUMEs checked every run). Every file rbx_binary emits for generated forests is decoded by TLC and must satisfy WriterInvariants (all structural clauses of the property) and FileIssues = {} (the decoded classes, hierarchy and values are exactly the forest), for all three compression modes with byte-identical chunk data; a document-literal dialect run lists where document and code disagree.",
                 note="Chunk bodies are decompressed with the lz4/zstd crates before TLC sees them; files are kept small enough for TLC's interpreter.",
                 technique="TLA+ transcription of docs/binary.md (BinaryWire.tla) decoding real files inside TLC + structural invariants"),
+    "C04": dict(level="model_checking", ref="§4 C04, §2.5",
+                text="MCForeignBinary.tla enumerates, for fixed logical forests, every combination of the freedoms docs/binary.md leaves open (class ids, referents, INST/PROP/PRNT orders, META/unknown chunks, service format, narrower numeric types, truncated/unknown-type PROP chunks, per-chunk compression). A foreign encoder written from the document concretises each abstract file; TLC first decodes the bytes with BinaryWire.tla and requires them to mean the logical forest (the encoder is held to the spec), then requires the forest rbx_binary read to be that forest.",
+                note="Two fixed forests; quick tier replays a seeded sample of the enumerated abstract files, thorough all of group 2 and 12000 of group 1. INST chunks precede PROP chunks as in the document's file structure.",
+                technique="TLA+ enumeration of spec-conformant encodings + independent encoder validated by the TLA+ decoder + trace validation of the real reader"),
     "C08": dict(level="model_checking", ref="§4 C08, §2.5, App. B.3",
                 text="MCBinaryColumns.tla models collect_type_info and the per-instance value lookup with the real database as a constant; TLC checks AlwaysSucceeds / OwnValues / ColumnsExact / ExplicitWins for every subset assignment, sibling order, property-map and alias-set iteration order (and re-finds both repaired defects under the pre-fix rules). Every population (initial state) is built as a real DOM, written and read by rbx_binary, also instance by instance, and judged by BinaryFormat.tla (own values, defaults for lacking properties, success iff each instance succeeds alone).",
                 note="Exhaustive for the listed classes/spellings and 2-3 instances; other classes are reached by C01's random generators. The Font enum -> Font face table is uninterpreted.",
